@@ -57,6 +57,7 @@ mod proofs {
 
     /// C03: the blocks fed to AES are IV, IV+1 (mod 2^128): AES-256-CTR with a full-width big-endian
     /// counter, as the PASETO spec (OpenSSL aes-256-ctr) and the aws-lc backend use.
+    h!(c03_public_ecdsa_twin_accepted, public_ecdsa_twin_accepted::<V>(2, 1, 1));
     h!(c03_local_ctr_counter_128bit, {
         let kb: [u8; 32] = kani::any();
         let key = forget(<V as HasKey<Local>>::decode(&kb)).unwrap();
